@@ -56,6 +56,20 @@ func Report(verifDir string, m *Merged, start time.Time, writeEvidence bool) int
 		}
 		exit = 1
 	}
+	if len(real) > 0 {
+		cnt := map[string]int{}
+		for _, v := range real {
+			cnt[v.Signature]++
+		}
+		var ss []string
+		for s := range cnt {
+			ss = append(ss, s)
+		}
+		sort.Strings(ss)
+		for _, s := range ss {
+			fmt.Printf("  distinct-signature property=%s count=%d %s\n", p.ID, cnt[s], s)
+		}
+	}
 	var sigs []string
 	for s := range knownSeen {
 		sigs = append(sigs, s)
